@@ -6,6 +6,7 @@ import (
 	"maps"
 	"regexp"
 	"strconv"
+	"sync"
 
 	"github.com/BondMachineHQ/BondMachine/pkg/procbuilder"
 	"github.com/BondMachineHQ/BondMachine/pkg/simbox"
@@ -52,6 +53,10 @@ type VM struct {
 	wait_proc int
 
 	abs_tick uint64
+
+	// Closed by Stop: tells the workers started by Launch_processors to exit
+	quit     chan struct{}
+	stopOnce sync.Once
 }
 
 func (vm *VM) CopyState(vmSource *VM) error {
@@ -140,7 +145,13 @@ type SimReport struct {
 
 func (vm *VM) Processor_execute(psc *procbuilder.SimConfig, instruct <-chan int, resp chan<- int, resultChan chan<- string, procId int) {
 	for {
-		switch <-instruct {
+		var instruction int
+		select {
+		case instruction = <-instruct:
+		case <-vm.quit:
+			return
+		}
+		switch instruction {
 		case 0:
 			resp <- procId
 		case 1:
@@ -183,6 +194,8 @@ func (vm *VM) Init() error {
 
 	cmdChan := make(chan []byte)
 	vm.cmdChan = cmdChan
+	vm.quit = make(chan struct{})
+	vm.stopOnce = sync.Once{}
 
 	for _, ed := range vm.EmuDrivers {
 		ed.Init()
@@ -303,8 +316,21 @@ func (vm *VM) EmuDriverDispatcher() {
 			for _, ed := range vm.EmuDrivers {
 				ed.PushCommand(cmd)
 			}
+		case <-vm.quit:
+			return
 		}
 	}
+}
+
+// Stop terminates the workers started by Launch_processors. It has to be called when the
+// simulation is over (between two Steps, when every worker is waiting for its next instruction);
+// the VM cannot be stepped afterwards. Calling it more than once is harmless.
+func (vm *VM) Stop() {
+	vm.stopOnce.Do(func() {
+		if vm.quit != nil {
+			close(vm.quit)
+		}
+	})
 }
 
 func (vm *VM) Launch_processors(s *simbox.Simbox) error {
